@@ -304,6 +304,7 @@ class Engine:
                     vc.depth = fr.contract.depth
                 if fr.contract is not None:
                     vc.reveal = tuple(fr.contract.reveal)
+                    vc.unfold_only = fr.contract.unfold_only
                 self.vcs[dig] = vc
                 self.order.append(dig)
         else:
